@@ -286,7 +286,7 @@ static spif_obj_t ls_build(int i)
     return l;
 }
 static const char *ls_bname(int i) { return LSB[i]; }
-static const char *LSM[] = { "append(new x)", "prepend(new y)", "insert_at(new z, count+1)", "remove_at(0)+del", "reverse()", "remove(a)+del", "mutate first element in place", "to_array+free", "iterator walk+del", "remove_at(count-1)+del", "remove_at(count-1)+del, then append(new w)" };
+static const char *LSM[] = { "append(new x)", "prepend(new y)", "insert_at(new z, count+1)", "remove_at(0)+del", "reverse()", "remove(a)+del", "mutate first element in place", "to_array+free", "iterator walk+del", "remove_at(count-1)+del", "remove_at(count-1)+del, then append(new w)", "done(), then append(new w)" };
 static void ls_mut(spif_obj_t l, int j)
 {
     spif_obj_t r, p;
@@ -302,6 +302,7 @@ static void ls_mut(spif_obj_t l, int j)
     case 8: { spif_iterator_t it = SPIF_LIST_ITERATOR(l); int g = 0; while (it && SPIF_ITERATOR_HAS_NEXT(it) && g++ < 64) (void) SPIF_ITERATOR_NEXT(it); if (it) SPIF_ITERATOR_DEL(it); break; }
     case 9: if (SPIF_LIST_COUNT(l)) { r = SPIF_LIST_REMOVE_AT(l, (spif_listidx_t) SPIF_LIST_COUNT(l) - 1); if (r) SPIF_OBJ_DEL(r); } break;
     case 10: if (SPIF_LIST_COUNT(l)) { r = SPIF_LIST_REMOVE_AT(l, (spif_listidx_t) SPIF_LIST_COUNT(l) - 1); if (r) SPIF_OBJ_DEL(r); } SPIF_LIST_APPEND(l, S_("w")); break;
+    case 11: SPIF_LIST_DONE(l); SPIF_LIST_APPEND(l, S_("w")); break;
     }
 }
 static const char *ls_mname(int j) { return LSM[j]; }
@@ -325,7 +326,7 @@ static spif_obj_t vc_build(int i)
     return v;
 }
 static const char *vc_bname(int i) { return VCB[i]; }
-static const char *VCM[] = { "insert(new c)", "insert(new z)", "remove(b)+del", "remove(absent)+del", "to_array+free", "iterator walk+del", "remove(greatest)+del, then insert(new zz)" };
+static const char *VCM[] = { "insert(new c)", "insert(new z)", "remove(b)+del", "remove(absent)+del", "to_array+free", "iterator walk+del", "remove(greatest)+del, then insert(new zz)", "done(), then insert(new c)" };
 static void vc_mut(spif_obj_t v, int j)
 {
     spif_obj_t p, r;
@@ -339,6 +340,7 @@ static void vc_mut(spif_obj_t v, int j)
     case 6: { int c = (int) SPIF_VECTOR_COUNT(v); spif_obj_t *a = c ? SPIF_VECTOR_TO_ARRAY(v) : NULL;
               if (a) { p = SPIF_OBJ_DUP(a[c - 1]); FREE(a); r = SPIF_VECTOR_REMOVE(v, p); SPIF_OBJ_DEL(p); if (r) SPIF_OBJ_DEL(r); }
               SPIF_VECTOR_INSERT(v, S_("zz")); break; }
+    case 7: SPIF_VECTOR_DONE(v); SPIF_VECTOR_INSERT(v, S_("c")); break;
     }
 }
 static const char *vc_mname(int j) { return VCM[j]; }
@@ -365,7 +367,7 @@ static spif_obj_t mp_build(int i)
 }
 static const char *mp_bname(int i) { return MPB[i]; }
 static const char *MPM[] = { "set(a,9)", "set(z,1)", "remove(a)+del", "remove(absent)", "get_keys+del", "get_values+del", "get_pairs+del", "mutate value of a in place", "iterator walk+del",
-                             "set(a, the map's own value object of a)", "set(the map's own first pair, NULL)", "set(new key nq, NULL) (array family: refused)", "remove(greatest key)+del, then set(zz,1)", "set(caller-owned pair (n,1), NULL), then delete the caller's pair" };
+                             "set(a, the map's own value object of a)", "set(the map's own first pair, NULL)", "set(new key nq, NULL) (array family: refused)", "remove(greatest key)+del, then set(zz,1)", "set(caller-owned pair (n,1), NULL), then delete the caller's pair", "done(), then set(a,7)" };
 static void mp_mut(spif_obj_t m, int j)
 {
     spif_obj_t K, r; spif_list_t l;
@@ -387,6 +389,7 @@ static void mp_mut(spif_obj_t m, int j)
                mset(m, "zz", "1"); break; }
     case 13: { spif_obj_t k = S_("n"), v = S_("1"); spif_objpair_t pr = spif_objpair_new_from_both(k, v); SPIF_OBJ_DEL(k); SPIF_OBJ_DEL(v);      /* the map copies a ready-made pair like anything else */
                if (pr) { SPIF_MAP_SET(m, SPIF_OBJ(pr), (spif_obj_t) NULL); spif_str_append_char(SPIF_STR(pr->value), '!'); spif_objpair_del(pr); } break; }
+    case 14: SPIF_MAP_DONE(m); mset(m, "a", "7"); break;
     case 11: if (g_family == 0 && DEBUG_LEVEL < 1) { K = S_("nq"); SPIF_MAP_SET(m, K, (spif_obj_t) NULL); SPIF_OBJ_DEL(K); } break;       /* the list families store the NULL pair; only array refuses it */
     }
 }
